@@ -6,7 +6,7 @@ cd /verif
 OUT=/verif/seeded/RESULTS.md
 echo "| seeded change | property | tier | exit | first violation reported |" > $OUT.tmp
 echo "|---|---|---|---|---|" >> $OUT.tmp
-for d in seeded/C*-*; do
+for d in seeded/${2:-C*-*}; do
   ID=$(basename $d); P=${ID%%-*}
   if ! git -C /repo diff --quiet; then echo "/repo dirty"; exit 2; fi
   if ! git -C /repo apply /verif/$d/patch.diff 2>/dev/null; then echo "| $ID | $P | $T | patch does not apply | |" >> $OUT.tmp; continue; fi
